@@ -49,14 +49,14 @@ func looksLikeExhaustion(out string) bool {
 }
 
 // runGoTestEnv runs the command made by mk; a failure whose output names resource exhaustion while the probe finds no
-// headroom is retried (up to 3 times, waiting for headroom each time). envFail is true when the last failure is still
+// headroom is retried (up to 2 times, waiting for headroom each time). envFail is true when the last failure is still
 // of that kind: the caller must not count it against the tree.
 func runGoTestEnv(mk func() *exec.Cmd) (out string, err error, envFail bool) {
 	for try := 0; ; try++ {
 		if try == 0 {
-			waitInotifyHeadroom(60 * time.Second)
+			waitInotifyHeadroom(30 * time.Second)
 		} else {
-			waitInotifyHeadroom(20 * time.Second)
+			waitInotifyHeadroom(10 * time.Second)
 		}
 		cmd := mk()
 		b, e := cmd.CombinedOutput()
@@ -68,7 +68,7 @@ func runGoTestEnv(mk func() *exec.Cmd) (out string, err error, envFail bool) {
 			// there is room now and it failed the same way twice: the code under test uses the resources up itself
 			return out, err, false
 		}
-		if try >= 3 {
+		if try >= 2 {
 			return out, err, true
 		}
 		time.Sleep(3 * time.Second)
